@@ -22,6 +22,11 @@ CHECKS = {
    "The real coordinator.PointsWriter.WritePointsPrivileged is driven through every combination of replication 1..4, coordinator position (each owner or a non-owner), consistency level and per-owner outcome (stored / retryable failure with handoff accepted or refused / permanent rejection / queue non-empty with enqueue accepted or refused / no answer), with answer arrival orders enforced by gates inside the doubles (n<=3 complete, n=4 one seeded order per tuple in quick and complete in thorough). The returned error class and, after all owner goroutines drained, the exact number and payload of hinted-handoff offers per owner are judged by a pure function of the case.",
    "ShardWriter/HintedHandoff/TSDBStore/MetaClient are doubles (durability of an accepted enqueue is C04's concern); the integrated multi-node variant is not part of this check; arrival order of non-final successes is near-exact (scheduler yields), verdicts do not depend on it.",
    "DESIGN.md section 3 C03"),
+ "C05": ("fault_enumeration",
+   "in-process 3- and 4-node clusters; every fan-out statement kind re-run from every coordinator under every single fault of another node (stopped, shard disabled, connection refused, reply delayed, stream cut at seeded byte offsets) and double faults; oracle: reference answer or error",
+   "Databases with replication 1/2/3 (and 2 on four nodes) hold the same data; reference answers come from the fault-free cluster; each statement is re-run from each coordinator with a fault injected on another node through the coordinator dial hook (refuse, delay past the reader timeout, cut the response stream after k bytes), by disabling a shard on one owner (error reply), by stopping a node, and with double faults that leave some shards without a healthy owner. The answer must be the reference answer or an error, never other rows; when every shard keeps a healthy owner and the fault is visible at request time the answer must be the reference.",
+   "One query at a time (fault attribution); Byzantine replies out of reach; exactly-once is judged through the rows (counts/sums over disjoint shards), not through a per-shard request log; storage ReadFilter/ReadGroup path not driven.",
+   "DESIGN.md section 3 C05"),
  "C06": ("exploration",
    "replicated execution of generated command logs on 3+1 FSM instances (one snapshot/restored), canonical-form equality and invariant assertions after every entry",
    "Generated metadata command logs (every FSM command type except those needing a live raft; small argument pools so repeats/conflicts/invalid references are common) are applied entry by entry to three independent FSM replicas plus one that is snapshotted and restored at seeded points; after every entry canonical forms must agree and the invariants of the property (disjoint live ranges, id uniqueness/no reuse, owner placement of new groups, no removed-node owners, rejected command changes nothing) are asserted. Go's randomised map iteration makes order leaks visible as divergence.",
@@ -109,6 +114,9 @@ def main():
         "engines": [
             {"name": "ev", "path": "harness/internal/ev", "serves_properties": sorted(CHECKS), "kind_free_text": "evidence writer, seeds, floors, known-findings classification, child-process supervision (a crash of the target is an observation), watchdog with deadlock evidence from two goroutine dumps"},
             {"name": "shardmodel", "path": "harness/internal/shardmodel", "serves_properties": [p for p in ["C01", "C02", "C10", "C18", "C19"] if p in CHECKS], "kind_free_text": "last-write-wins reference model of a shard + driver of a real tsdb.Store (writes, snapshots, planner-driven compactions, deletes, reopen, both read APIs) + seeded history generator"},
+            {"name": "cluster", "path": "harness/internal/cluster", "serves_properties": [p for p in ["C05", "C07", "C11", "C18", "C19"] if p in CHECKS], "kind_free_text": "in-process cluster: real influxd-meta and influxd servers on loopback (HTTP, raft, inter-node TCP), stop/restart of nodes"},
+            {"name": "faultconn", "path": "harness/internal/faultconn", "serves_properties": [p for p in ["C05", "C18"] if p in CHECKS], "kind_free_text": "connection fault injection between data nodes through the coordinator dial hook (refuse, delay, cut after k bytes)"},
+            {"name": "refql", "path": "harness/internal/refql", "serves_properties": [p for p in ["C11"] if p in CHECKS], "kind_free_text": "independent InfluxQL reference evaluator for the covered SELECT grammar"},
             {"name": "crashimg", "path": "harness/internal/crashimg", "serves_properties": [p for p in ["C01", "C10"] if p in CHECKS], "kind_free_text": "sparse-aware crash image copy, torn tails"},
         ],
         "checks": checks,
